@@ -76,6 +76,9 @@ def check(w):
         for nrun in (1, 3, 99, 100, 101, 500):
             for empty in (False, True):
                 scen.append({"shape": sh, "framing": {"kind": "runs", "run": nrun, "empty": empty, "first": 0 if sh in ("small", "listing", "error") else 40}})
+        # an error frame in the LAST stage of the session: before / inside the final phase marker and the statistics
+        for k in (1, 4, 5, 8, 12, 13, 16, 20, 24):
+            scen.append({"shape": sh, "framing": {"kind": "errat", "errat": 0, "fromend": k}})
         nerr = 12 if quick else 60
         for _ in range(nerr):
             scen.append({"shape": sh, "framing": {"kind": "errat", "errat": rnd.choice([0, 1, 3, 4, 5, 17, 100, 1000, 5000, 70000, 300000])}})
